@@ -155,7 +155,9 @@ enum Expect {
 
 const SERVING_WORDS: &[&str] = &["", " servings", " cups worth", " big", " small ones", "-ish", "人分", "é", "½ loaves", "ª", "\u{a0}portions", "個"];
 const TAG_POOL: &[&str] = &["vegan", "quick", "", "2022", "gluten free", "vegan", " spicy ", "a", "\u{a0}soup\u{a0}", "\u{3000}", "\u{2003}tea", " soup\u{a0}", "\u{2009}"];
-const BAD_TIMES: &[&str] = &["soon", "1hour30min", "5 parsecs", "-5", "inf", "nan", "1e20", "4294967296", "99999999h", "1h4294967295m", "71582789h", "1 h 4294967295 min", "h", "10 min 5", "1.5.2 h", "1h30", "٣ h", "1h -30min", "+5 min", "2 hours -30 min", "-1 min 2 min", "1 h +5 min", "1e2 min", "0x10 min", "   ", "\t", "-0.4", "-0.49 min", "-0.2h"];
+const BAD_TIMES: &[&str] = &["soon", "1hour30min", "5 parsecs", "-5", "inf", "nan", "1e20", "4294967296", "99999999h", "1h4294967295m", "71582789h", "1 h 4294967295 min", "h", "10 min 5", "1.5.2 h", "1h30", "٣ h", "1h -30min", "+5 min", "2 hours -30 min", "-1 min 2 min", "1 h +5 min", "1e2 min", "0x10 min", "   ", "\t", "-0.4", "-0.49 min", "-0.2h",
+    // a group given twice, groups out of order, a zero amount of something that is no time unit
+    "1h2h", "1h1h30m", "0h2h5m", "30m1h", "1m2m", "0 parsecs", "1 h 0 bananas", "0 km", "1 h 0.0 g", "00 lightyears"];
 const BAD_TIME_YAML: &[&str] = &["{prep: 10, cook: until golden}", "{prep: 10, cook: 4294967296}", "{prep: soon}", "{cook: [20]}", "{prep: 10, cook: 2 parsecs}", "[10, 20]", "{prep: -5, cook: 1}", "{prep: 1h, cook: {a: 1}}", "{}", "{foo: 1}", "{preparation: 10}", "12.5", "7.5", "{prep: 2.5, cook: 10}", "0.4", "-1", "-7", "{cook: 0.5}"];
 const BAD_SERVINGS: &[&str] = &["many", "2|2", "1|2|1", "x2", "-3", "4294967296", "|", "3 | many", "2|4|", "|2", "2||4", "2|4| ", "2 |", "||"];
 const LOCALES: &[&str] = &["en", "es_ES", "en_gb", "DE", "pt_BR"];
@@ -213,19 +215,22 @@ fn render(c: &Case) -> (String, Option<String>, Expect, &'static [&'static str])
             let e = if c.conv % 5 == 3 { None } else { Some(exact) };
             (yaml_quote(&s), Some(s), Expect::Minutes(e), TIME_KEYS)
         }
+        // the index space is split so that appending to a list never changes what an index stands for
+        // (regression files hold indices): 0..150 strings, 150..220 YAML values, 220.. part-key mappings
         // a {prep, cook} mapping belongs to `time` only: under a prep / cook key it is not a documented form
-        Spec::BadTime(i) if *i as usize % 11 == 10 => {
+        Spec::BadTime(i) if *i >= 220 => {
             const PART_KEYS: &[&str] = &["prep time", "cook time", "prep_time", "cook_time"];
-            let y = ["{prep: 10}", "{cook: 20 min}", "{prep: 10, cook: 20}", "{}"][*i as usize / 11 % 4];
-            (y.to_string(), None, Expect::Minutes(None), PART_KEYS)
+            let k = (*i - 220) as usize;
+            let y = ["{prep: 10}", "{cook: 20 min}", "{prep: 10, cook: 20}", "{}"][k / 4 % 4];
+            (y.to_string(), None, Expect::Minutes(None), &PART_KEYS[k % 4..k % 4 + 1])
         }
-        // mappings and lists: YAML only
-        Spec::BadTime(i) if *i as usize % (BAD_TIMES.len() + BAD_TIME_YAML.len()) >= BAD_TIMES.len() => {
-            let y = BAD_TIME_YAML[*i as usize % (BAD_TIMES.len() + BAD_TIME_YAML.len()) - BAD_TIMES.len()];
+        // mappings, lists and unquoted numbers: YAML only
+        Spec::BadTime(i) if *i >= 150 => {
+            let y = BAD_TIME_YAML[(*i - 150) as usize % BAD_TIME_YAML.len()];
             (y.to_string(), None, Expect::Minutes(None), TIME_KEYS)
         }
         Spec::BadTime(i) => {
-            let s = BAD_TIMES[*i as usize % (BAD_TIMES.len() + BAD_TIME_YAML.len())];
+            let s = BAD_TIMES[*i as usize % BAD_TIMES.len()];
             (yaml_quote(s), Some(s.to_string()), Expect::Minutes(None), TIME_KEYS)
         }
         Spec::ServingsInt(n) => {
